@@ -10,11 +10,11 @@ CONSTANTS
   p3 = p3
   r1 = r1
   r2 = r2
-  NoLockKinds = {"StopPodSandbox", "Synchronize"}
-  PreAccessKinds = {"RemovePodSandbox"}
+  NoLockKinds = {}
+  PreAccessKinds = {}
   RLockKinds = {}
   TwiceKinds = {}
-  UnlockedKinds = {"StopPodSandbox", "Synchronize", "RemovePodSandbox"}
+  UnlockedKinds = {}
   OldOrder = FALSE
 PROPERTIES Termination
 CHECK_DEADLOCK TRUE
